@@ -6,7 +6,7 @@ from vf import gen, corecheck as cc, framework as fw
 RULE = ("scenarios (random API programs with scripted re-entrant callbacks, see vf/gen.py) from the profiles mixed, "
         "hostile_lifetime (bursts past the mailbox capacity; self stop/deregister/unsubscribe with mail in flight; a module "
         "stopped/deregistered/paused by another one while it has events in the same poll batch; events of every kind retained past "
-        "source, module and context; auto-free to 0/1/many recipients; re-subscription with other flags), shared_signal / oneshot_burst / fd_error (events the receive loop skips), stash_become (stash / unstash / become, a third throttled by a token bucket, a third with injected allocation failures: refused calls leave nothing behind), last_ref / ctx_gone (a module or the whole context goes away inside a callback because the reference given to m_mod_deregister was the last one) (every third mixed/hostile scenario runs without the harness's observation references, so released memory is really released) run on the asan build; "
+        "source, module and context; auto-free to 0/1/many recipients; re-subscription with other flags), shared_signal / oneshot_burst / fd_error (events the receive loop skips), stash_become (stash / unstash / become, a third throttled by a token bucket, a third with injected allocation failures: refused calls leave nothing behind), stash_corners, resub_dup (a duplicated topic subscribed again with other flags, then looked up), pause_others_in_batch, last_ref / ctx_gone (a module or the whole context goes away inside a callback because the reference given to m_mod_deregister was the last one) (every third mixed/hostile scenario runs without the harness's observation references, so released memory is really released) run on the asan build; "
         "plus a slice of fresh scenarios on the plain build under valgrind memcheck; "
         "violated by any ASan/UBSan/LSan/memcheck report or fatal signal, a free() of a block the accounting allocator does not hold, "
         "blocks outstanding after the context is gone and every user reference dropped, a zombie not answering its name, a "
@@ -95,6 +95,11 @@ def build_cases(tier, seed):
         c = cc.Case()
         c.sc, c.profile, c.mode, c.seed = gen.gen_stash_become(seed * 1000 + k), "stash_become", ("loop" if k % 2 else "dispatch"), seed * 1000 + k
         cases.append(c)
+    for prof, g, q in (("stash_corners", gen.gen_stash_corners, 48), ("resub_dup", gen.gen_resub_dup, 16), ("pause_others_in_batch", gen.gen_pause_others_in_batch, 16)):
+        for k in range(max(q, n // 40)):
+            c = cc.Case()
+            c.sc, c.profile, c.mode, c.seed = g(seed * 1000 + k), prof, ("loop" if k % 2 else "dispatch"), seed * 1000 + k
+            cases.append(c)
     for prof, g in (("shared_signal", gen.gen_shared_signal), ("oneshot_burst", gen.gen_oneshot_burst), ("fd_error", gen.gen_fd_error)):
         for k in range(max(8, n // 100)):
             c = cc.Case()
